@@ -13,6 +13,15 @@ run is gate-serial; `side` — concurrent operations that are not terminating ac
 (refused CONNECT of another transport, disconnect() of another client of the namespace, an EVENT
 with ack id of the same client): real threads, not tasks of the model, judged by the oracle.
 
+`manager` — which client manager the server has: the plain `Manager` (default) or `'pubsub'`, the in-memory
+`PubSubManager` subclass of harness/world_pubsub.py (one host on its channel; initialised by the server's first
+connection, the listener task is not started: the action `queue` IS the listener thread).  With it `disconnect()`
+goes through `PubSubManager.can_disconnect` (its own `is_connected` test; a sid it does not consider connected
+is re-submitted locally: `_handle_disconnect(message)` -> `server.disconnect(ignore_queue=True)`, whose
+`manager.is_connected` goes through the proxy again: a sub-step of the same check) and the further terminating
+action `queue` exists: a `disconnect` message for the sid published by another host, applied by the listener
+thread (the real `PubSubManager._thread()` consuming exactly that channel entry).
+
 `Run` executes one schedule on a fresh real server and records, per step, the access performed
 (with its result) — from which the model schedule, the gate windows, and the observable outcome
 (handler calls with reasons, exceptions, residue in the manager) are derived.
@@ -111,7 +120,13 @@ class Proxy:
             ns = k.get('namespace', a[1] if len(a) > 1 and isinstance(a[1], str) else None)
             if tag == 'eio':
                 ns = None
-            det.point((tag, name, ns))
+            lt = tag
+            if tag == 'mgr' and name == 'is_connected' and getattr(det.local, 'depth', 0) > 0:
+                # the manager calls the server back from inside a manager call of the server
+                # (PubSubManager.can_disconnect -> _handle_disconnect -> server.disconnect(ignore_queue=True)):
+                # the membership test is evaluated again, a sub-step of the check in progress
+                lt = 'mgr*'
+            det.point((lt, name, ns))
             det.local.depth = getattr(det.local, 'depth', 0) + 1
             try:
                 r = getattr(v, '_orig', v)(*a, **k)
@@ -122,7 +137,7 @@ class Proxy:
                 rec = list(r)
             elif not isinstance(r, (bool, str, type(None))):
                 rec = None
-            log.append((det.idx(), tag, name, ns, rec))
+            log.append((det.idx(), lt, name, ns, rec))
             return r
         return call
 
@@ -143,11 +158,14 @@ class ThreadLog(_Quiet):
 
 
 NESTED = ('basic_disconnect', 'basic_leave_room', 'is_connected')
-ACTIONS = ('api', 'client', 'lost', 'other_api', 'other_client')
+ACTIONS = ('api', 'client', 'lost', 'other_api', 'other_client', 'queue')
 MODEL_TASK = {
     'api': ('api', [0]), 'client': ('clientDisc', [0]), 'lost': ('lost', [0, 1]),
     'other_api': ('api', [1]), 'other_client': ('clientDisc', [1]),
+    # a `disconnect` message from the channel, applied by the listener thread: server.disconnect(ignore_queue=True)
+    'queue': ('api', [0]),
 }
+LISTENER_CONTAINS = 'Handler error in pubsub listening thread'
 REASON_KIND = {'server disconnect': 'api', 'client disconnect': 'clientDisc', 'transport close': 'lost'}
 
 # access name -> model pc whose step it is (None: no model step)
@@ -165,14 +183,22 @@ def access_key(label):
 
 class Run:
     """one schedule on a fresh real threaded server.
-    cfg = {'actions': [...], 'others': bool, 'nested': bool}"""
+    cfg = {'actions': [...], 'others': bool, 'nested': bool, 'manager': None | 'pubsub'}"""
 
     def __init__(self, cfg):
         self.cfg = cfg
         self.det = Det()
         det = self.det
         self.slog = ThreadLog(det)
-        self.w = w = ServerWorld('threading', logger=self.slog)
+        self.pubsub = cfg.get('manager') == 'pubsub'
+        if 'queue' in cfg['actions'] and (not self.pubsub or list(cfg['actions']).count('queue') > 1):
+            raise C.Infra('the action `queue` needs manager=pubsub and occurs at most once (a host has one listener)')
+        m = None
+        if self.pubsub:
+            from . import world_pubsub as WP
+            self.chan = WP.Channel()
+            m = WP.manager_class('threading')(self.chan, 'this-host')
+        self.w = w = ServerWorld('threading', manager=m, logger=self.slog)
         self.elog = ThreadLog(det)
         w.eio.logger = self.elog
         self.calls = []            # (thread, ns, sid, reason)
@@ -213,6 +239,16 @@ class Run:
             w.open('T3')
         self.mgr = sio.manager
         self.sids = [self.mgr.sid_from_eio_sid('T1', ns) for ns in NS_NAMES]
+        if self.pubsub:
+            # the first connection initialised the manager; its listener task is not run: `queue` is that thread
+            if self.mgr is not m or not sio.manager_initialized or m.init_calls != 1:
+                raise C.Infra('the PubSubManager was not initialised by the first connection')
+            w.background[:] = [b for b in w.background if b[0] != m._thread]
+            import pickle
+            # what another host's (or a write-only manager's) disconnect(sid) publishes
+            self.chan.msgs.append(pickle.dumps({'method': 'disconnect', 'sid': self.sids[0], 'namespace': '/',
+                                                'host_id': 'another-host'}))
+            m.cursor, m.limit = len(self.chan.msgs) - 1, len(self.chan.msgs)
         self.sid2 = self.mgr.sid_from_eio_sid('T2', '/') if 'T2' in w.socks else None
         w.sent_all()
         if cfg.get('nested'):
@@ -230,6 +266,8 @@ class Run:
             'lost': lambda: sock.close(wait=False, abort=True, reason=w.eio.reason.TRANSPORT_CLOSE),
             'other_api': lambda: sio.disconnect(self.sids[1], namespace='/b'),
             'other_client': lambda: sock.receive(eio_packet.Packet(eio_packet.MESSAGE, '1/b,')),
+            # the listener thread: the real PubSubManager._thread() consumes the one pending channel entry
+            'queue': lambda: self.mgr._thread(),
             # side actions: not terminating actions of the sid, no task of the model
             'bystander_refused': lambda: w.socks['T3'].receive(eio_packet.Packet(eio_packet.MESSAGE, '0')),
             'bystander_disconnect': lambda: sio.disconnect(self.sid2, namespace='/'),
@@ -351,7 +389,12 @@ class Run:
                 raised.append((i, r[1]))
         for (t, msg, cls) in self.elog.contained:        # engine.io contained what escaped socket.io
             raised.append((t, cls))
-        swallowed = [(t, cls) for (t, msg, cls) in self.slog.contained]
+        # what server.disconnect() raised on the listener thread is contained by the listener's catch-all, one
+        # frame above the kernel: for the model (and for the property) the call raised
+        listener_contained = [(t, cls) for (t, msg, cls) in self.slog.contained if msg.startswith(LISTENER_CONTAINS)]
+        raised += listener_contained
+        swallowed = [(t, cls) for (t, msg, cls) in self.slog.contained if not msg.startswith(LISTENER_CONTAINS)]
+        published = [d for (_h, d) in self.chan.published] if self.pubsub else []
         residue = {}
         for n, ns in enumerate(NS_NAMES):
             sid = self.sids[n]
@@ -384,6 +427,8 @@ class Run:
                              'handler_runs': len(self.ev_calls), 'acks': acks}
         return {
             'actions': list(acts), 'others': bool(self.cfg.get('others') or 'T2' in w.socks),
+            'manager': 'pubsub' if self.pubsub else 'plain', 'listener_contained': sorted(listener_contained),
+            'published': [(d.get('method'), d.get('namespace'), d.get('sid') == self.sids[0]) for d in published],
             'side_actions': list(self.side), 'side': side, 'stray_calls': stray,
             'sched': list(self.sched),
             'labels': ['%s.%s%s' % (l[0], l[1], '' if len(l) < 3 or l[2] is None else '(%s)' % l[2])
